@@ -10,6 +10,7 @@ import (
 	"path/filepath"
 	"sort"
 	"strings"
+	"sync/atomic"
 	"time"
 
 	"verif/host"
@@ -278,6 +279,9 @@ func cstrOf(b []byte) string {
 	return string(b)
 }
 
+// c13Stuck is set when a connection's goroutine was still busy at the hard cap: the campaign is cut short.
+var c13Stuck atomic.Bool
+
 type c13Target struct {
 	p    *host.Proc
 	w    *model.World
@@ -291,7 +295,7 @@ func (t *c13Target) quiesce() (rep *spyfs.Report, serveConn int, err error) {
 	// reads may take seconds on a loaded machine), up to a hard cap after which "still busy for a
 	// client that left a minute ago" is itself the violation (a handler that spins for ever).
 	deadline := time.Now().Add(3 * time.Second)
-	hardCap := time.Now().Add(60 * time.Second)
+	hardCap := time.Now().Add(30 * time.Second)
 	lastOps := -1
 	for {
 		g, e := t.p.Do(worker.Cmd{Cmd: "goroutines"})
@@ -313,6 +317,9 @@ func (t *c13Target) quiesce() (rep *spyfs.Report, serveConn int, err error) {
 			}
 		}
 		if now.After(deadline) || now.After(hardCap) {
+			if now.After(hardCap) {
+				c13Stuck.Store(true) // a handler that never ends: every further run would wait again
+			}
 			return r.Report, g.ServeConn, nil
 		}
 		time.Sleep(5 * time.Millisecond)
@@ -409,7 +416,7 @@ func C13(e *Env) {
 			plans = append(plans, plan{[]spyfs.Fault{{Index: a, Kind: spyfs.FEIO}, {Index: b, Kind: kind2, K: 1 + rng.Intn(3000)}}, fmt.Sprintf("pair: EIO at #%d + %s at #%d", a, kind2, b), "pair", "pair"})
 		}
 		for _, pl := range plans {
-			if run.TooMany() {
+			if run.TooMany() || c13Stuck.Load() {
 				break
 			}
 			if sc.Write {
@@ -639,7 +646,7 @@ func c13Endings(e *Env, tro, trw *c13Target, scen []c13Scenario) {
 				continue
 			}
 			for _, end := range endings {
-				if run.TooMany() {
+				if run.TooMany() || c13Stuck.Load() {
 					return
 				}
 				t := tro
